@@ -413,6 +413,11 @@ def run(ctx):
     ctx.floor("C01.R4", 2, "consume and produce bodies")
     from . import c03
     c03.rule_r9(facts, ctx, rule_id="C01.R5")
+    from . import c19
+    # a window writer/reader that reaches the ring outside its window (`self.parent.slice_mut(start, start + src.len())`) can
+    # overwrite committed, unread samples: the who-may-call rule of C03 is a necessary condition here too
+    c03.rule_r1(facts, c19._Retag(ctx, "C03.R1", "C01.R7"))
+    ctx.floor("C01.R7", 8, "callers of the raw-memory / window-constructor primitives (same rule as C03.R1)")
     ctx.floor("C01.R5", 4, "position/fill-level updates computed from values read under the same lock acquisition")
     ctx.floor("C01.R1", 4, "writes of rpos/used in consume and wpos/used in produce")
     ctx.floor("C01.R2", 1, "Buffer constructor")
